@@ -54,6 +54,21 @@ pub fn expand_self<T: VisitableMut + Clone>(input: &T, to: &Type) -> T {
     input
 }
 
+/// Returns `ty`, parenthesized if it cannot directly follow `&` or `&'a`
+/// (e.g. `dyn A + B` must be written `&(dyn A + B)`).
+pub fn to_ref_elem_type(ty: &Type) -> Type {
+    let need_paren = match ty {
+        Type::TraitObject(t) => t.bounds.len() > 1 || t.bounds.trailing_punct(),
+        Type::ImplTrait(t) => t.bounds.len() > 1 || t.bounds.trailing_punct(),
+        _ => false,
+    };
+    if need_paren {
+        parse_quote!((#ty))
+    } else {
+        ty.clone()
+    }
+}
+
 pub struct GenericParamSet {
     idents: HashSet<Ident>,
 }
